@@ -175,10 +175,19 @@ func (g GroupedPoints) SetValue(v reflect.Value) error {
 		if keyK := t.Key().Kind(); keyK != reflect.String {
 			return fmt.Errorf("cannot set map keyed by %v", keyK)
 		}
-		if len(g.Points) > maxStructureSize {
+		// Only points that set an entry count toward the limit: the diff of
+		// two maps of legal size can hold up to maxStructureSize deletions
+		// in addition to maxStructureSize new entries
+		numSet := 0
+		for _, p := range g.Points {
+			if p.Tombstone%2 == 0 {
+				numSet++
+			}
+		}
+		if numSet > maxStructureSize {
 			return fmt.Errorf(
 				"number of points %v exceeds maximum of %v for a map",
-				len(g.Points), maxStructureSize,
+				numSet, maxStructureSize,
 			)
 		}
 		// Ensure points are keyed
@@ -192,7 +201,7 @@ func (g GroupedPoints) SetValue(v reflect.Value) error {
 			if !v.CanSet() {
 				return fmt.Errorf("cannot set value %v", v)
 			}
-			v.Set(reflect.MakeMapWithSize(t, len(g.Points)))
+			v.Set(reflect.MakeMapWithSize(t, numSet))
 		}
 		// Set map values
 		for _, p := range g.Points {
